@@ -743,6 +743,88 @@ func savedBytesEqual(scene gltf.PolyformScene, container string, want []byte, o 
 	return nil
 }
 
+// incrementalWriter: gltf.Writer is an exported, incremental API (AddScene may be called again after
+// a file was written). Writing a snapshot in between must not change what is written afterwards:
+// the final file of (add A, write, add B, write) must be the file of (add A, add B, write), and the
+// snapshot the file of (add A, write) - byte for byte, or equal in length and structurally valid
+// when only the order of JSON object members differs.
+func incrementalWriter(scene gltf.PolyformScene, o *vh.Obs) *vh.Failure {
+	k := len(scene.Models) / 2
+	a, b := scene, scene
+	a.Models, b.Models = scene.Models[:k], scene.Models[k:]
+	b.Lights = nil
+	var snap, final, want, wantSnap bytes.Buffer
+	var err error
+	kind, val := oracle.Try(func() {
+		w := gltf.NewWriter()
+		if err = w.AddScene(a); err != nil {
+			return
+		}
+		if err = w.WriteGLB(&snap); err != nil {
+			return
+		}
+		if err = w.AddScene(b); err != nil {
+			return
+		}
+		if err = w.WriteGLB(&final); err != nil {
+			return
+		}
+		ref := gltf.NewWriter()
+		if err = ref.AddScene(a); err != nil {
+			return
+		}
+		if err = ref.WriteGLB(&wantSnap); err != nil { // a write of a writer that is then thrown away
+			return
+		}
+		ref = gltf.NewWriter()
+		if err = ref.AddScene(a); err != nil {
+			return
+		}
+		if err = ref.AddScene(b); err != nil {
+			return
+		}
+		err = ref.WriteGLB(&want)
+	})
+	if kind != "" {
+		return vh.Failf("incremental/writer-panic/"+kind, "gltf.Writer used incrementally panicked: %v", val)
+	}
+	if err != nil {
+		o.Count("incremental/writer-error-not-judged", 1)
+		return nil
+	}
+	o.Class("incremental-writer/snapshot-between-two-scenes")
+	for _, pair := range []struct {
+		name      string
+		got, want []byte
+	}{{"snapshot", snap.Bytes(), wantSnap.Bytes()}, {"file-after-snapshot", final.Bytes(), want.Bytes()}} {
+		if bytes.Equal(pair.got, pair.want) {
+			continue
+		}
+		if len(pair.got) != len(pair.want) {
+			return vh.Failf("incremental/"+pair.name+"/length-differs", "add %d models, write, add %d models, write: the %s has %d bytes, the same calls without the write in between give %d", k, len(scene.Models)-k, pair.name, len(pair.got), len(pair.want))
+		}
+		// same length: only accept a different order of object members, i.e. the same accessor table
+		pg, f := parseGLB(pair.got)
+		if f != nil {
+			f.Sig = "incremental/" + pair.name + "/" + f.Sig
+			return f
+		}
+		pw, f := parseGLB(pair.want)
+		if f != nil {
+			o.Count("incremental/reference-unparsable-not-judged", 1)
+			return nil
+		}
+		sameBufs := len(pg.bufs) == len(pw.bufs)
+		for i := 0; sameBufs && i < len(pg.bufs); i++ {
+			sameBufs = bytes.Equal(pg.bufs[i], pw.bufs[i])
+		}
+		if !reflect.DeepEqual(pg.tree["accessors"], pw.tree["accessors"]) || !reflect.DeepEqual(pg.tree["bufferViews"], pw.tree["bufferViews"]) || !sameBufs {
+			return vh.Failf("incremental/"+pair.name+"/differs", "add %d models, write, add %d models, write: accessors, buffer views or payload of the %s differ from what the same calls give without the write in between", k, len(scene.Models)-k, pair.name)
+		}
+	}
+	return nil
+}
+
 func write(scene gltf.PolyformScene, text bool) ([]byte, *vh.Failure) {
 	buf := &bytes.Buffer{}
 	var err error
@@ -803,6 +885,11 @@ func runCase(c Case, o *vh.Obs) *vh.Failure {
 	}
 	if (len(out)/4)%16 == 3 { // one case in sixteen: gltf.Save picks the container from the extension and must write the same bytes
 		if f := savedBytesEqual(scene, container, out, o); f != nil {
+			return f
+		}
+	}
+	if !c.Text && len(scene.Models) >= 2 && (len(out)/4)%4 == 1 {
+		if f := incrementalWriter(scene, o); f != nil {
 			return f
 		}
 	}
